@@ -62,7 +62,7 @@ def run(ctx, model: Model):
 
     # ---------------- R-RAISE (+ positive control)
     ft = ast.parse(FIXTURE)
-    fx = [n for n in ast.walk(ft) if isinstance(n, (ast.Try, ast.Raise))]
+    fx = [n for n in ast.walk(ft) if (isinstance(n, ast.Try) and _swallowing_handlers(n)) or isinstance(n, ast.Raise)]
     if len(fx) != 2:
         raise AnalysisError("positive control of R-RAISE failed")
     ctx.instance("R-RAISE", key="fixture", sample="positive control: try/except and builtin raise are seen in the fixture")
@@ -70,8 +70,12 @@ def run(ctx, model: Model):
     for m in model.modules.values():
         for node in ast.walk(m.tree):
             if isinstance(node, ast.Try) or (hasattr(ast, "TryStar") and isinstance(node, ast.TryStar)):
-                ctx.violation("R-RAISE", m.relpath, _owner(model, node), "try statement",
-                              "library code catches exceptions (errors may be swallowed)", node.lineno)
+                # EAFP around one operation (`except KeyError: raise <library exception>`, `except StopIteration: ...`)
+                # is fine; what may swallow arbitrary errors is a bare handler or one for Exception / BaseException
+                for h in _swallowing_handlers(node):
+                    ctx.violation("R-RAISE", m.relpath, _owner(model, node), "try statement",
+                                  "library code catches every exception (errors may be swallowed): "
+                                  f"`except{' ' + ast.unparse(h.type) if h.type is not None else ''}:`", h.lineno)
             if isinstance(node, ast.Raise):
                 n_raise += 1
                 exc = node.exc
@@ -85,6 +89,8 @@ def run(ctx, model: Model):
                 ctx.instance("R-RAISE", key=(m.relpath, _owner(model, node), norm_text(node)[:60]), sample=f"{m.relpath}:{node.lineno} raise {name}")
                 if name not in exc_classes and isinstance(exc, ast.Name) and _param_is_library_exception(model, node, exc.id, exc_classes):
                     continue        # the exception class is a parameter; every call site passes a library exception class
+                if name not in exc_classes and isinstance(node.exc, ast.Call) and _returns_library_exception(model, m, node.exc.func, exc_classes):
+                    continue        # `raise helper(...)`: every return of the helper constructs a library exception
                 if name not in exc_classes:
                     ctx.violation("R-RAISE", m.relpath, _owner(model, node), norm_text(node)[:80],
                                   f"raises `{name}`, which is not one of the library's documented exception classes", node.lineno)
@@ -385,9 +391,51 @@ def _progress(model, f):
                         ids.append(sd.args[0].id)
                 if len(ids) == 2 and ((ids[0], ids[1]) in arg_names or (ids[1], ids[0]) in arg_names):
                     found = True
+            elif isinstance(n, ast.Compare) and len(n.ops) == 1 and isinstance(n.ops[0], (ast.In, ast.NotIn)) \
+                    and isinstance(n.left, ast.Name) and isinstance(n.comparators[0], (ast.Tuple, ast.List, ast.Set)):
+                # `new in (x, old)` / `new not in (...)`: a comparison with the parameter among the alternatives
+                for e in n.comparators[0].elts:
+                    if isinstance(e, ast.Name) and ((n.left.id, e.id) in arg_names or (e.id, n.left.id) in arg_names):
+                        found = True
         if not found:
             return False, "no comparison between the new argument " + "/".join(sorted(a for a, _ in arg_names)) + " and the parameter it replaces"
     return True, "recursive argument is compared with the parameter it replaces"
+
+
+def _swallowing_handlers(node):
+    out = []
+    for h in node.handlers:
+        types = [h.type] if h.type is not None and not isinstance(h.type, ast.Tuple) else (list(h.type.elts) if h.type is not None else [None])
+        for t in types:
+            nm = None if t is None else (t.attr if isinstance(t, ast.Attribute) else t.id if isinstance(t, ast.Name) else "?")
+            if nm in (None, "Exception", "BaseException", "?"):
+                out.append(h)
+                break
+    return out
+
+
+def _returns_library_exception(model, m, fexpr, exc_classes):
+    """`fexpr` names a library function (same module, imported, or alias.f) all of whose returns construct library exceptions."""
+    g = None
+    if isinstance(fexpr, ast.Name):
+        g = m.functions.get(fexpr.id)
+        if g is None and fexpr.id in m.from_imports:
+            mod, nm = m.from_imports[fexpr.id]
+            g = model.modules[mod].functions.get(nm) if mod in model.modules else None
+    elif isinstance(fexpr, ast.Attribute) and isinstance(fexpr.value, ast.Name) and m.imports.get(fexpr.value.id) in model.modules:
+        g = model.modules[m.imports[fexpr.value.id]].functions.get(fexpr.attr)
+    if g is None:
+        return False
+    rets = [n for n in ast.walk(g.node) if isinstance(n, ast.Return)]
+    if not rets:
+        return False
+    for r in rets:
+        v = r.value
+        f = v.func if isinstance(v, ast.Call) else None
+        nm = f.attr if isinstance(f, ast.Attribute) else f.id if isinstance(f, ast.Name) else None
+        if nm not in exc_classes:
+            return False
+    return True
 
 
 def _param_is_library_exception(model, node, pname, exc_classes, depth=0):
